@@ -13,12 +13,12 @@ MANIFEST = {
             "threaded runs with seeded perturbation: every supernode read in panel_bmod happens after the release of all "
             "its columns, each (panel, source supernode) update at most once, only smaller columns are read; plus "
             "comparison of the parallel factors with a 1-thread elimination using the same row order.",
-    "note": "PARTIAL: of the column-level worker protocol, pxgstrf_mark_busy_descends is modelled and proved (c03_busy_columns_marked: "
+    "note": "The scheduler (C04 note) and pxgstrf_mark_busy_descends are RE-TRANSLATED from the current source on every run and proved equal to the models (SchedTie.v; BusyGen.v / BusyTie.v: c03_source_mark_busy_is_model, c03_source_busy_columns_marked). PARTIAL: of the column-level worker protocol, pxgstrf_mark_busy_descends is modelled and proved (c03_busy_columns_marked: "
             "the busy snapshot covers every column of every unfinished descendant panel; tied by comparing every snapshot of every "
             "worker of real runs with the extracted model); panel_dfs skipping, pruning races and no-write-while-read on subscript "
             "lists are monitored on traces, not proved. Trusted: Coq kernel, extraction, lock-step harness, event hooks "
             "(SLU_MT_VERIF) and the python trace monitor; sequentially consistent memory assumed.",
-    "technique": "Coq invariant proof (panel-level pipeline protocol) + lock-step model-vs-C walk + trace monitor on threaded runs",
+    "technique": "Coq invariant proof (panel-level pipeline protocol; scheduler and busy snapshot proved equal to translations of the C source regenerated on every run) + lock-step model-vs-C walk + trace monitor on threaded runs",
 }
 
 EV_SCHED, EV_RELEASE, EV_DONE, EV_TB, EV_TE, EV_LBUSY, EV_READ, EV_READ_END, EV_WAIT_BEGIN, EV_WAIT_END = range(1, 11)
